@@ -19,7 +19,7 @@ def parsers():
         "Visibility.from_value": (Visibility, Visibility.from_value, lambda s: s, lambda s: alias.get(s, Visibility.UNAVAILABLE), True),
         "SensorModality.from_value": (SensorModality, SensorModality.from_value, lambda s: s, "reject", True),
         "ShapeType.from_value": (ShapeType, ShapeType.from_value, lambda s: s, "reject", True),
-        "MatchingLabelPolicy.from_str": (MatchingLabelPolicy, MatchingLabelPolicy.from_str, lambda s: s.upper(), "reject", False),
+        "MatchingLabelPolicy.from_str": (MatchingLabelPolicy, MatchingLabelPolicy.from_str, lambda s: s.upper(), "reject", True),
     }
 
 
@@ -57,11 +57,18 @@ def check_ctor(kind, s):
     from perception_eval.common.transform import TransformKey
     if kind == "Shape.__init__":
         exp = [m for m in ShapeType if m.value == s]
-        try:
-            a = Shape(s, (1.0, 2.0, 3.0))
-        except ValueError:
-            return f"Shape({s!r}, size) raised ValueError although Shape({exp[0]!r}, size) is accepted" if exp else None
-        if not exp or a.type is not exp[0]:
+        def build(t):
+            try:
+                return Shape(t, (1.0, 2.0, 3.0)), None
+            except ValueError as ex:
+                return None, str(ex)
+        a, err = build(s)
+        if not exp:
+            return None if a is None else f"Shape({s!r}, size).type is {a.type!r} although {s!r} names no shape type"
+        b, err_m = build(exp[0])       # the same construction spelled with the member: both spellings behave identically
+        if (a is None) != (b is None):
+            return f"Shape({s!r}, size) {'raised ' + err if a is None else 'is accepted'} while Shape({exp[0]!r}, size) {'raised ' + err_m if b is None else 'is accepted'}"
+        if a is not None and (a.type is not exp[0] or b.type is not exp[0]):
             return f"Shape({s!r}, size).type is {a.type!r}"
         return None
     exp = [m for m in FrameID if m.value == s or m.value == s.lower()]
@@ -176,6 +183,22 @@ def search(item, seed):
                 return dict(function="TransformDict.transform", input=m.value, observed=why)
         if fname.startswith("TransformDict.transform"):
             return None
+    if item["name"] == "bounded-native-search":
+        # the whole statement on the real code: every parser on its members' values, printed forms, case variants and non-member strings;
+        # every enum-or-string constructor on both spellings
+        for f in parsers():
+            for s in candidates(f, item, seed):
+                why = check(f, s)
+                if why:
+                    return dict(function=f, input=s, observed=why)
+        from perception_eval.common.schema import FrameID
+        from perception_eval.common.shape import ShapeType
+        for f, cls in (("Shape.__init__", ShapeType), ("TransformKey.__init__", FrameID), ("HomogeneousMatrix.__init__", FrameID)):
+            for s in [m.value for m in cls] + [m.value.upper() for m in cls] + ["bogus", ""]:
+                why = check_ctor("Shape.__init__" if f.startswith("Shape") else "HomogeneousMatrix" if f.startswith("Homog") else "TransformKey", s)
+                if why:
+                    return dict(function=f, input=s, observed=why)
+        return None
     if fname not in parsers():
         return None
     for s in candidates(fname, item, seed):
